@@ -360,7 +360,18 @@ func r144(c *Ctx) {
 						"the group's result is read without first waiting for doneCh: it races with the consumer's write")
 				case *ssa.Store:
 					n++
-					inConsumer := strings.Contains(core.FuncName(fn), "startConsumer")
+					// the consumer goroutine: the function (or one whose deferred/inline closures we are in)
+					// that is started by exactly one go statement and called from nowhere else
+					inConsumer := false
+					for f := fn; f != nil && !inConsumer; f = f.Parent() {
+						goSites, others := startSites(p, f)
+						if goSites == 1 && others == 0 {
+							inConsumer = true
+						}
+						if goSites > 0 {
+							break // a closure started as a goroutine of its own: its parent is another goroutine
+						}
+					}
 					r.Check(inConsumer, "R14.4", core.FuncName(fn), "write of g.result", p.Pos(x.Pos()),
 						"the result is written only by the consumer goroutine", "the group's result is written outside the consumer goroutine")
 				}
@@ -888,4 +899,46 @@ func doneOnEveryPath(fn *ssa.Function, at ssa.Instruction) bool {
 		}
 	}
 	return false
+}
+
+// startSites counts, over the package of f, the go statements that start f and every other use of f
+// (calls, defers, f taken as a value).
+func startSites(p *core.Program, f *ssa.Function) (goSites, others int) {
+	pk := core.FuncPkg(f)
+	if pk == nil {
+		return 0, 1
+	}
+	for _, fn := range p.KetoFuncs(core.RelPath(pk.Path())) {
+		core.Instrs(fn, func(_ *ssa.BasicBlock, _ int, ins ssa.Instruction) {
+			if mc, ok := ins.(*ssa.MakeClosure); ok && mc.Fn == ssa.Value(f) {
+				if mc.Referrers() != nil {
+					for _, ref := range *mc.Referrers() {
+						if g, isGo := ref.(*ssa.Go); isGo && g.Call.Value == ssa.Value(mc) {
+							goSites++
+						} else {
+							others++
+						}
+					}
+				}
+				return
+			}
+			if ci, ok := ins.(ssa.CallInstruction); ok && ci.Common().StaticCallee() == f {
+				if _, isMC := ci.Common().Value.(*ssa.MakeClosure); isMC {
+					return // counted at the closure
+				}
+				if _, isGo := ins.(*ssa.Go); isGo {
+					goSites++
+				} else {
+					others++
+				}
+				return
+			}
+			for _, op := range ins.Operands(nil) {
+				if op != nil && *op == ssa.Value(f) {
+					others++
+				}
+			}
+		})
+	}
+	return
 }
